@@ -184,6 +184,16 @@ func classifyErr(v ssa.Value, fs facts, isOwn func(ssa.CallInstruction) bool, se
 			return errNonNil
 		}
 	}
+	if ld, ok := v.(*ssa.UnOp); ok {
+		if cell, ok := ld.X.(*ssa.Alloc); ok {
+			if fs.has("nil:cell:" + cell.Name()) {
+				return errNil
+			}
+			if fs.has("nonnil:cell:" + cell.Name()) {
+				return errNonNil
+			}
+		}
+	}
 	switch x := v.(type) {
 	case *ssa.MakeInterface:
 		return errNonNil
@@ -241,6 +251,17 @@ func valueEdgeFacts(b *ssa.BasicBlock, succ int) []string {
 		nm := a.V.Name()
 		if nm == "" {
 			continue
+		}
+		// a test of a local variable (a load of its cell) also speaks about the
+		// cell until the next store into it (see valueGen)
+		if ld, ok := a.V.(*ssa.UnOp); ok && a.Nil != 0 {
+			if cell, ok := ld.X.(*ssa.Alloc); ok {
+				if a.Nil == 1 {
+					out = append(out, "nil:cell:"+cell.Name())
+				} else {
+					out = append(out, "nonnil:cell:"+cell.Name())
+				}
+			}
 		}
 		switch {
 		case a.Nil == 1:
@@ -851,10 +872,23 @@ func ruleLiteralRefusal(c *Ctx, rule string) {
 				if classifyErr(ev, fs, nil, map[ssa.Value]bool{}) == errNil {
 					return true, "returns nil (no refusal)"
 				}
-				// delegation: return g(...)
+				// delegation: return g(...) — also `err := g(...); …; return err`
+				// where g is a callback whose possible targets are all safe
 				if call, ok := unspill(ev).(*ssa.Call); ok {
 					if cal := staticCallee(call); cal != nil && safeRefusal[cal] {
 						return true, "delegates to " + fnKey(cal)
+					}
+					if staticCallee(call) == nil {
+						callees := dynCallees(p, fn, call)
+						all := len(callees) > 0
+						for _, cal := range callees {
+							if !safeRefusal[cal] {
+								all = false
+							}
+						}
+						if all {
+							return true, "returns the result of a callback whose targets all refuse safely"
+						}
 					}
 				}
 			}
@@ -1331,28 +1365,48 @@ func ruleDiscardSkipsLiterals(c *Ctx, rule string) {
 		return
 	}
 	counted, looped := false, false
-	allInstrs(fn, func(i ssa.Instruction) {
-		call, ok := i.(*ssa.Call)
-		if !ok {
-			return
+	// the counted discard may sit in a helper: then the helper's call site must be in the loop
+	inLoopOfFn := func(g *ssa.Function, b *ssa.BasicBlock) bool {
+		if g == fn {
+			return reaches2(b, b)
 		}
-		o := calleeObj(call)
-		if o == nil || o.Pkg() == nil {
-			return
+		if reaches2(b, b) {
+			return true
 		}
-		if (o.Pkg().Path() == "io" && o.Name() == "CopyN") || isExtMethod(o, "bufio", "Reader", "Discard") {
-			for _, a := range call.Call.Args {
-				v := a
-				if mi, ok := v.(*ssa.MakeInterface); ok {
-					v = mi.X
-				}
-				if r, ok := loadedField(v); ok && r.is("Decoder", "r") {
-					counted = true
-					looped = reaches2(call.Block(), call.Block())
-				}
+		for _, site := range callSitesOf(p, g) {
+			if site.Parent() == fn && reaches2(site.Block(), site.Block()) {
+				return true
 			}
 		}
-	})
+		return false
+	}
+	for _, g := range helperClosure(fn, 2) {
+		g := g
+		allInstrs(g, func(i ssa.Instruction) {
+			call, ok := i.(*ssa.Call)
+			if !ok {
+				return
+			}
+			o := calleeObj(call)
+			if o == nil || o.Pkg() == nil {
+				return
+			}
+			if (o.Pkg().Path() == "io" && o.Name() == "CopyN") || isExtMethod(o, "bufio", "Reader", "Discard") {
+				for _, a := range call.Call.Args {
+					v := a
+					if mi, ok := v.(*ssa.MakeInterface); ok {
+						v = mi.X
+					}
+					if r, ok := loadedField(v); ok && r.is("Decoder", "r") {
+						counted = true
+						if inLoopOfFn(g, call.Block()) {
+							looped = true
+						}
+					}
+				}
+			}
+		})
+	}
 	c.check(counted && looped, rule, "DiscardLine skips literal data", fn.Pos(), "a counted discard of the decoder's reader, repeated until the command ends",
 		"DiscardLine only skips to the next CRLF: when a command fails before its {N+} literal was parsed, the literal data is left in the stream and parsed as commands")
 }
@@ -1441,4 +1495,21 @@ func ruleLongLineDrained(c *Ctx, rule string) {
 	if n == 0 {
 		c.unresolvedRoot("ReadLine calls in imapserver")
 	}
+}
+
+// valueGen: kills what is known about a local cell when it is assigned.
+func valueGen(f facts, i ssa.Instruction) facts {
+	if st, ok := i.(*ssa.Store); ok {
+		if cell, ok := st.Addr.(*ssa.Alloc); ok {
+			n1, n2 := "nil:cell:"+cell.Name(), "nonnil:cell:"+cell.Name()
+			if f.has(n1) || f.has(n2) {
+				// a store of the very value that was tested keeps the knowledge
+				if ld, ok := st.Val.(*ssa.UnOp); ok && ld.X == ssa.Value(cell) {
+					return f
+				}
+				return f.without(func(s string) bool { return s == n1 || s == n2 })
+			}
+		}
+	}
+	return f
 }
